@@ -723,7 +723,7 @@ def run(ctx, rep):
                               'with a plan, Ok(0) is only reached through the write', 'Ok(0) can be returned with a plan without writing it')
                 fa = verdict(result_fates(prog, top.fn, top))
                 rep.check(fa == 'ok', 'R4', 'detect/Pass/plan-write-propagated', e.where(), 'write error propagated', 'write result: ' + fa)
-                why = H.chain_always(E, prog, e, first, body) + ([] if e.call.name in H.TRUNCATING else ['%s does not replace an existing file' % e.call.name])
+                why = H.chain_always(E, prog, e, first, body) + ([] if H.effect_name(e) in H.TRUNCATING else ['%s does not replace an existing file' % e.call.name])
                 rep.check(not why, 'R4', 'detect/Pass/plan-write-helper', e.where(), 'the helper writes (replacing the file) whenever it succeeds',
                           'the write of the build plan inside its helper: %s' % '; '.join(why))
             else:
@@ -780,7 +780,7 @@ def run(ctx, rep):
             rep.check(ok, 'R4', 'build/' + fname, e.where(), '%s written iff result.%s is Some, error propagated' % (fname, fld),
                       '%s: guarded_by_Some(%s)=%s data_from_result=%s always_on_Some=%s' % (fname, fld, guarded, data_ok, always))
             # the same inside the helper(s) the write goes through: unconditional, checked, and replacing a file that exists
-            why = H.chain_always(E, prog, e, first, body) + ([] if e.call.name in H.TRUNCATING else ['%s does not replace an existing file' % e.call.name])
+            why = H.chain_always(E, prog, e, first, body) + ([] if H.effect_name(e) in H.TRUNCATING else ['%s does not replace an existing file' % e.call.name])
             rep.check(not why, 'R4', 'build/%s/helper' % fname, e.where(), 'the helper writes (replacing the file) whenever it succeeds',
                       'the write of %s inside its helper: %s' % (fname, '; '.join(why)))
             known_writes.append(e)
@@ -825,7 +825,7 @@ def run(ctx, rep):
         other = [e for e in o.may if e.kind in MUTATING and not is_sbom(e) and not any(e.call is k.call for k in known_writes) and not H.elsewhere(e.path, rb)]
         rep.check(not other, 'R4', 'build/no-other-mutation', other[0].where() if other else w(rb), 'a successful build only writes launch.toml, store.toml and SBOM files',
                   'a successful build also performs %s' % [(e.kind, vstr(e.path)[:60] if e.path else '') for e in other[:3]])
-        trunc = [e for e in sb if e.call.name not in H.TRUNCATING]
+        trunc = [e for e in sb if H.effect_name(e) not in H.TRUNCATING]
         rep.check(not trunc, 'R4', 'build/sbom/replaces', trunc[0].where() if trunc else w(rb), 'SBOM files replace existing ones', 'SBOM files are written with %s' % [e.call.name for e in trunc[:2]])
         # the SBOM path: <layers>/<name><per-format text>, total and injective in the format, so no two provided SBOMs of
         # one kind share a file and build / launch files never coincide
